@@ -8,15 +8,15 @@ import (
 )
 
 type Unit struct {
-	Func     string   // function key: symbolic run of all non-family ensures + safety + frame
-	Labels   []string // restrict the symbolic run to ensures carrying one of these labels (nil = all)
-	Families []string // family names of Func to discharge ("*" = all)
-	Lemma    string   // lemma name
-	NoSym    bool     // families only
-	Scen     bool     // run all scenarios of Func
-	Alias    string   // all functions under contract of this package alias
-	LemmaLabel string // all lemmas carrying this label
-	G1       bool     // global-frame check (no writes to package-level state)
+	Func       string   // function key: symbolic run of all non-family ensures + safety + frame
+	Labels     []string // restrict the symbolic run to ensures carrying one of these labels (nil = all)
+	Families   []string // family names of Func to discharge ("*" = all)
+	Lemma      string   // lemma name
+	NoSym      bool     // families only
+	Scen       bool     // run all scenarios of Func
+	Alias      string   // all functions under contract of this package alias
+	LemmaLabel string   // all lemmas carrying this label
+	G1         bool     // global-frame check (no writes to package-level state)
 }
 
 type PropPlan struct {
@@ -50,16 +50,16 @@ func metricFuncs(alias string, st *SpecFamily, level string, names ...string) []
 }
 
 var assumptionText = map[string]string{
-	"A1":  "A1: strings.Split(s, sep) returns >= 1 pieces whose sep-join is s; strings.Join is concatenation with separators",
-	"A2":  "A2: strings/fmt/errs/errors functions used do not panic; errs.Wrap keeps the wrapped error reachable for errors.Is and adds no other sentinel; errs.WithCause adds the cause's match set",
-	"A3":  "A3: fmt.Sprintf with %v/%s renders a string as itself and a fmt.Stringer by its String()",
-	"A4":  "A4: strings.Builder / bytes.Buffer accumulate exactly what is written",
-	"A5":  "A5: math.Pow and strconv.FormatFloat are deterministic pure functions on this platform; their values at every ground argument used are produced by the real functions in this run and sanity-checked in exact arithmetic",
-	"A7":  "A7: language.Tag values compare with ==; English and Japanese are different tags",
-	"A9":  "A9: compiler and hardware implement IEEE-754 binary64 RNE for + - * / and do not fuse multiply-add (GOARCH=amd64, GOAMD64=v1 checked at start)",
-	"A10": "A10: the VC generator (govc) is unverified; mitigations: solver cross-check in the thorough tier, replay of refutations on the real code, must-fail self-test corpus, cover/vacuity guards",
+	"A1":             "A1: strings.Split(s, sep) returns >= 1 pieces whose sep-join is s; strings.Join is concatenation with separators",
+	"A2":             "A2: strings/fmt/errs/errors functions used do not panic; errs.Wrap keeps the wrapped error reachable for errors.Is and adds no other sentinel; errs.WithCause adds the cause's match set",
+	"A3":             "A3: fmt.Sprintf with %v/%s renders a string as itself and a fmt.Stringer by its String()",
+	"A4":             "A4: strings.Builder / bytes.Buffer accumulate exactly what is written",
+	"A5":             "A5: math.Pow and strconv.FormatFloat are deterministic pure functions on this platform; their values at every ground argument used are produced by the real functions in this run and sanity-checked in exact arithmetic",
+	"A7":             "A7: language.Tag values compare with ==; English and Japanese are different tags",
+	"A9":             "A9: compiler and hardware implement IEEE-754 binary64 RNE for + - * / and do not fuse multiply-add (GOARCH=amd64, GOAMD64=v1 checked at start)",
+	"A10":            "A10: the VC generator (govc) is unverified; mitigations: solver cross-check in the thorough tier, replay of refutations on the real code, must-fail self-test corpus, cover/vacuity guards",
 	"map-order-free": "range over a package-level map literal is modelled as iteration in an unspecified order (every entry whose body returns is a possible result)",
-	"G1":  "G1 (checked syntactically every run): no function of the five packages assigns to, deletes from or takes the address of a package-level variable",
+	"G1":             "G1 (checked syntactically every run): no function of the five packages assigns to, deletes from or takes the address of a package-level variable",
 }
 
 func (u *Universe) plans(st *SpecTables) map[string]*PropPlan {
@@ -95,7 +95,7 @@ func (u *Universe) plans(st *SpecTables) map[string]*PropPlan {
 			{Func: "v3m.Base.Score", Families: []string{"base"}},
 		}, v3(), vecV3),
 		Assumptions: []string{"A1", "A2", "A5", "A9", "A10"},
-		Meta: []string{"Decoder independence: Score is a function of the exported fields only (frame 'modifies nothing' + functional postcondition), so the score of a decoded object is the score of its fields whichever decoder produced them (fields per C09)."},
+		Meta:        []string{"Decoder independence: Score is a function of the exported fields only (frame 'modifies nothing' + functional postcondition), so the score of a decoded object is the score of its fields whichever decoder produced them (fields per C09)."},
 	}
 	P["C02"] = &PropPlan{ID: "C02", Title: "v3 temporal score = Roundup(Base x E x RL x RC) on the rounded base score",
 		Units: cat(v3("E", "RL", "RC"), []Unit{
@@ -106,7 +106,7 @@ func (u *Universe) plans(st *SpecTables) map[string]*PropPlan {
 			{Lemma: "v3_temporal_compose"},
 		}, v3(), vecV3),
 		Assumptions: []string{"A1", "A2", "A5", "A9", "A10"},
-		Meta: []string{"Composition: Base.Score() === tenth(kb) with kb = v3_base_k(fields) (C01 family 'base'); Temporal.Score() === tenth(v3_outer_k(kb, E, RL, RC)) for every kb in 0..100 (family 'temporal'); v3_temporal_k = v3_outer_k o v3_base_k by definition (lemma v3_temporal_compose)."},
+		Meta:        []string{"Composition: Base.Score() === tenth(kb) with kb = v3_base_k(fields) (C01 family 'base'); Temporal.Score() === tenth(v3_outer_k(kb, E, RL, RC)) for every kb in 0..100 (family 'temporal'); v3_temporal_k = v3_outer_k o v3_base_k by definition (lemma v3_temporal_compose)."},
 	}
 	P["C03"] = &PropPlan{ID: "C03", Title: "v3 environmental score = FIRST environmental equations",
 		Units: cat(v3("CR", "IR", "AR", "MAV", "MAC", "MPR", "MUI", "MS", "MC", "MI", "MA", "AV", "AC", "PR", "UI", "S", "C", "I", "A", "E", "RL", "RC"), []Unit{
@@ -115,7 +115,7 @@ func (u *Universe) plans(st *SpecTables) map[string]*PropPlan {
 			{Lemma: "v3_env_compose"},
 		}, v3(), vecV3),
 		Assumptions: []string{"A1", "A2", "A5", "A9", "A10"},
-		Meta: []string{"Composition: family 'inner' shows that, for every combination of version, effective metrics and requirements, a non-positive modified impact returns 0 and otherwise the inner Roundup equals tenth(v3_env_inner_k) (and lies in 0..100); family 'outer' shows the outer Roundup(inner x E x RL x RC) for every inner value 0..100; v3_env_k is their composition by definition (lemma v3_env_compose). 'Not Defined takes the base value' is carried by the Modified*.Value contracts (effective metric eff_v3_*)."},
+		Meta:        []string{"Composition: family 'inner' shows that, for every combination of version, effective metrics and requirements, a non-positive modified impact returns 0 and otherwise the inner Roundup equals tenth(v3_env_inner_k) (and lies in 0..100); family 'outer' shows the outer Roundup(inner x E x RL x RC) for every inner value 0..100; v3_env_k is their composition by definition (lemma v3_env_compose). 'Not Defined takes the base value' is carried by the Modified*.Value contracts (effective metric eff_v3_*)."},
 	}
 	P["C04"] = &PropPlan{ID: "C04", Title: "v2 base and temporal scores = FIRST v2 equations",
 		Units: cat(v2("AV", "AC", "Au", "C", "I", "A", "E", "RL", "RC"), []Unit{
@@ -125,7 +125,7 @@ func (u *Universe) plans(st *SpecTables) map[string]*PropPlan {
 			{Func: "v2m.Temporal.Score", Families: []string{"temporal", "empty"}},
 		}, v2(), vecV2),
 		Assumptions: []string{"A1", "A2", "A3", "A4", "A9", "A10"},
-		Meta: []string{"Composition: Base.Score() is fp-equal to tenth(kb), kb a nearest tenth of the exact base equation (family 'base'); Temporal.Score() is a nearest tenth of (kb/10) x E x RL x RC for every kb in 0..100 incl. -0.0 (family 'temporal'), and equals the base score when the temporal group is absent (family 'empty')."},
+		Meta:        []string{"Composition: Base.Score() is fp-equal to tenth(kb), kb a nearest tenth of the exact base equation (family 'base'); Temporal.Score() is a nearest tenth of (kb/10) x E x RL x RC for every kb in 0..100 incl. -0.0 (family 'temporal'), and equals the base score when the temporal group is absent (family 'empty')."},
 	}
 	P["C05"] = &PropPlan{ID: "C05", Title: "v2 environmental score = FIRST v2 environmental equations",
 		Units: cat(v2("AV", "AC", "Au", "C", "I", "A", "E", "RL", "RC", "CDP", "TD", "CR", "IR", "AR"), []Unit{
@@ -135,7 +135,7 @@ func (u *Universe) plans(st *SpecTables) map[string]*PropPlan {
 			{Func: "v2m.Environmental.Score", Families: []string{"adjbase", "adjgrid", "adjtemp", "final", "final0", "none", "none0"}},
 		}, v2(), vecV2),
 		Assumptions: []string{"A1", "A2", "A3", "A4", "A9", "A10"},
-		Meta: []string{"Stages: 'adjbase' (adjusted base score is a nearest tenth of the base equation on AdjustedImpact, 46,656 instances), 'adjtemp' (temporal equation on every adjusted base score -2.0..10.0), 'final'/'final0' (CDP/TD equation on every adjusted temporal score), 'none'/'none0' (environmental group absent: temporal score). Exact halves may round either way at every rounding step (near1)."},
+		Meta:        []string{"Stages: 'adjbase' (adjusted base score is a nearest tenth of the base equation on AdjustedImpact, 46,656 instances), 'adjtemp' (temporal equation on every adjusted base score -2.0..10.0), 'final'/'final0' (CDP/TD equation on every adjusted temporal score), 'none'/'none0' (environmental group absent: temporal score). Exact halves may round either way at every rounding step (near1)."},
 	}
 	scoreUnitsV3 := []Unit{
 		{Func: "v3m.Base.GetError"}, {Func: "v3m.Temporal.GetError"}, {Func: "v3m.Environmental.GetError"},
@@ -160,14 +160,14 @@ func (u *Universe) plans(st *SpecTables) map[string]*PropPlan {
 			{Lemma: "v3_grid_prints"},
 		}),
 		Assumptions: []string{"A1", "A2", "A3", "A4", "A5", "A9", "A10"},
-		Meta: []string{"The statement quantifies over vectors: the decoders of both versions are part of the plan (fields per C09, frames of Decode), so a decoder that lets stale state into a reused receiver fails here too. Grid and range: every Score() postcondition of the score families has the form result === tenth(k) (v3) or result fp-equal to a nearest tenth with explicit range bounds (v2), with 0 <= k <= 100 (v2 environmental: -20..100 where the FIRST equation itself is negative); invalid objects score +0.0 ([C12] postconditions). Severity(): for every grid value ks of the same level's Score() (replace family over 0..100, v2 incl. -0.0) the result is the rating band of ks; a Severity() that consults another level's score does not reach the replaced call and fails the cut-point obligation. Printing: strconv.FormatFloat of each of the 101 grid doubles is the decimal with at most one digit (oracle table produced by the real function in this run)."},
+		Meta:        []string{"The statement quantifies over vectors: the decoders of both versions are part of the plan (fields per C09, frames of Decode), so a decoder that lets stale state into a reused receiver fails here too. Grid and range: every Score() postcondition of the score families has the form result === tenth(k) (v3) or result fp-equal to a nearest tenth with explicit range bounds (v2), with 0 <= k <= 100 (v2 environmental: -20..100 where the FIRST equation itself is negative); invalid objects score +0.0 ([C12] postconditions). Severity(): for every grid value ks of the same level's Score() (replace family over 0..100, v2 incl. -0.0) the result is the rating band of ks; a Severity() that consults another level's score does not reach the replaced call and fails the cut-point obligation. Printing: strconv.FormatFloat of each of the 101 grid doubles is the decimal with at most one digit (oracle table produced by the real function in this run)."},
 	}
 	P["C13"] = &PropPlan{ID: "C13", Title: "Not Defined neutrality; temporal never exceeds base",
 		Units: cat(v3("E", "RL", "RC", "CR", "IR", "AR", "MAV", "MAC", "MPR", "MUI", "MS", "MC", "MI", "MA"), v2("E", "RL", "RC", "TD", "CDP"), vecV3, vecV2, scoreUnitsV3, scoreUnitsV2, []Unit{
 			{Lemma: "v3_env_neutral"}, {Lemma: "v3_eff_neutral"}, {Lemma: "v3_temporal_neutral"}, {Lemma: "v3_temporal_le_base"},
 		}),
 		Assumptions: []string{"A1", "A2", "A3", "A4", "A5", "A9", "A10"},
-		Meta: []string{"The statement quantifies over vectors: the decoders of both versions are part of the plan (unwritten metrics ARE Not Defined after Decode; frames of Decode). v3/v2 temporal with E, RL, RC Not Defined equals the base score and temporal <= base: conjuncts of the temporal families' postconditions (result === tenth(kb) when all three are Not Defined; v3_outer_k(kb,...) <= kb; v2: result <= tenth(kb)). v3 environmental with all environmental metrics Not Defined: the Modified*.Value contracts give the base weights (lemma v3_eff_neutral), lemma family v3_env_neutral (5,184 instances, spec side) shows equal zero cut-off and equal inner Roundup unless scope changed and version 3.1, and the outer stage is the same function v3_outer_k as the temporal score; with C03 and C02 this is environmental == temporal. v2 Target Distribution None => 0: conjunct of the final-stage families."},
+		Meta:        []string{"The statement quantifies over vectors: the decoders of both versions are part of the plan (unwritten metrics ARE Not Defined after Decode; frames of Decode). v3/v2 temporal with E, RL, RC Not Defined equals the base score and temporal <= base: conjuncts of the temporal families' postconditions (result === tenth(kb) when all three are Not Defined; v3_outer_k(kb,...) <= kb; v2: result <= tenth(kb)). v3 environmental with all environmental metrics Not Defined: the Modified*.Value contracts give the base weights (lemma v3_eff_neutral), lemma family v3_env_neutral (5,184 instances, spec side) shows equal zero cut-off and equal inner Roundup unless scope changed and version 3.1, and the outer stage is the same function v3_outer_k as the temporal score; with C03 and C02 this is environmental == temporal. v2 Target Distribution None => 0: conjunct of the final-stage families."},
 	}
 	rtLemmas := func(v string, f *SpecFamily) []Unit {
 		var out []Unit
@@ -242,22 +242,22 @@ func (u *Universe) plans(st *SpecTables) map[string]*PropPlan {
 		Units: []Unit{{Func: "rep.newOptions", NoSym: true, Scen: true}, {Func: "rep.NewBase"}, {Func: "rep.NewTemporal"}, {Func: "rep.NewEnvironmental"},
 			{Alias: "nam"}, {LemmaLabel: "C18"}, {Func: "v3m.Version.String"}, {Func: "v3m.Temporal.BaseMetrics"}, {Func: "v3m.Environmental.TemporalMetrics"}, {Lemma: "v3_grid_prints"}},
 		Assumptions: []string{"A5", "A7", "A10", "A-opt: an option list is represented by the language it selects (English without options); tied to the real closures of WithOptionsLanguage by exact execution of newOptions with 0, 1 and 2 options"},
-		Meta: []string{"One postcondition per exported field of the three report structs (23 + 12 + 28 fields plus the embedded reports' fields): title fields equal the summary of the title function of the metric the field is named after, value fields the summary of that metric's value-name function applied to that metric's field of the metrics object, both at the requested language; Version/Vector are the version label and the Encode() text of the same level (call-site ghost of <Level>.Encode#0); <Level>Score is FormatFloat of the value returned by <Level>.Score#0 and SeverityValue the name of the value returned by <Level>.Severity#0 (a constructor that consults another level's score/severity does not make that call and fails); embedded reports are built from the embedded metrics with the same options. Name functions are distinguishable because their summaries are exact (C18)."},
+		Meta:        []string{"One postcondition per exported field of the three report structs (23 + 12 + 28 fields plus the embedded reports' fields): title fields equal the summary of the title function of the metric the field is named after, value fields the summary of that metric's value-name function applied to that metric's field of the metrics object, both at the requested language; Version/Vector are the version label and the Encode() text of the same level (call-site ghost of <Level>.Encode#0); <Level>Score is FormatFloat of the value returned by <Level>.Score#0 and SeverityValue the name of the value returned by <Level>.Severity#0 (a constructor that consults another level's score/severity does not make that call and fails); embedded reports are built from the embedded metrics with the same options. Name functions are distinguishable because their summaries are exact (C18)."},
 	}
 	P["C19"] = &PropPlan{ID: "C19", Title: "template export renders faithfully and fails cleanly (relative to text/template)",
 		Units: []Unit{{Func: "rep.getTempleteString"}, {Func: "rep.executeTemplate"},
 			{Func: "rep.BaseReport.ExportWith"}, {Func: "rep.BaseReport.ExportWithString"}, {Func: "rep.TemporalReport.ExportWith"}, {Func: "rep.TemporalReport.ExportWithString"},
 			{Func: "rep.EnvironmentalReport.ExportWith"}, {Func: "rep.EnvironmentalReport.ExportWithString"}},
 		Assumptions: []string{"A2", "A4", "A6: text/template parse/execute are deterministic functions of (text, data) that write only to the given buffer and return errors instead of panicking; io.Copy returns the reader's full content or an error; library errors match none of the cvsserr sentinels", "A10"},
-		Meta: []string{"The wrappers are proved faithful GIVEN A6: on success the returned reader is non-nil and its content is exactly tt_exec_out(template text, report) with a nil error; a template that does not parse or execute, a nil or failing reader yield a nil reader and an error matching exactly ErrInvalidTemplate (the partially filled buffer is never returned); a nil report yields ErrNullPointer; ExportWith(r) equals ExportWithString(content of r). Nothing is proved about text/template itself."},
+		Meta:        []string{"The wrappers are proved faithful GIVEN A6: on success the returned reader is non-nil and its content is exactly tt_exec_out(template text, report) with a nil error; a template that does not parse or execute, a nil or failing reader yield a nil reader and an error matching exactly ErrInvalidTemplate (the partially filled buffer is never returned); a nil report yields ErrNullPointer; ExportWith(r) equals ExportWithString(content of r). Nothing is proved about text/template itself."},
 	}
 	P["C18"] = &PropPlan{ID: "C18", Title: "localised names are total, unambiguous and fall back to English",
-		Units: []Unit{{Alias: "nam"}, {LemmaLabel: "C18"}, {Func: "v3m.Severity.String"}},
+		Units:       []Unit{{Alias: "nam"}, {LemmaLabel: "C18"}, {Func: "v3m.Severity.String"}},
 		Assumptions: []string{"A7", "A10", "map-order-free"},
-		Meta: []string{"Each of the 52 name functions is executed symbolically (symbolic enumeration integer, symbolic language tag) against: non-empty result for every input, Unknown / 未定義 for every out-of-range value. Its summary fn_nam_<F> (the result as a term of the parameters, from the same symbolic execution) carries the lemmas: any tag other than the Japanese tag yields exactly the English name (hence every tag whose language is neither English nor Japanese), pairwise distinct names of defined values per language (ground lemma families over value pairs), Modified value name = base value name in both languages."},
+		Meta:        []string{"Each of the 52 name functions is executed symbolically (symbolic enumeration integer, symbolic language tag) against: non-empty result for every input, Unknown / 未定義 for every out-of-range value. Its summary fn_nam_<F> (the result as a term of the parameters, from the same symbolic execution) carries the lemmas: any tag other than the Japanese tag yields exactly the English name (hence every tag whose language is neither English nor Japanese), pairwise distinct names of defined values per language (ground lemma families over value pairs), Modified value name = base value name in both languages."},
 	}
 	P["C20"] = &PropPlan{ID: "C20", Title: "value codes, enumeration values and weights form the specification's tables",
-		Units: cat(v3(), v2(), []Unit{{Func: "v3m.Version.String"}, {Func: "v3m.get"}, {Func: "ver.Num.String"}, {Func: "ver.Get"}}, rtLemmas("v3", st.V3), rtLemmas("v2", st.V2)),
+		Units:       cat(v3(), v2(), []Unit{{Func: "v3m.Version.String"}, {Func: "v3m.get"}, {Func: "ver.Num.String"}, {Func: "ver.Get"}}, rtLemmas("v3", st.V3), rtLemmas("v2", st.V2)),
 		Assumptions: []string{"A10", "map-order-free"},
 	}
 	return P
